@@ -11,6 +11,16 @@ T_PATHS = 'bounded-exhaustive exploration of the row transition system (all row 
 T_HIST = 'explicit-state BFS over call histories on live objects with reflection snapshots'
 
 CHECKS = {
+    'C07': ("Every row sequence up to length 5/4/4/3 (thorough 6/5/5/4) over data, barline, null interpretation, clef row, null data, split, join for 1-3 kern spines (and kern+text exported with "
+            "spine_types=['**kern']) plus all <=2 (3) deviations of a backbone score; for each document EVERY range 1<=a<=b<=M, (a,None), (None,b) and eight out-of-range shapes. Oracle: the "
+            "full export tiled by its barline rows - data lines of the range byte-identical and in order, opening/closing barline, single-measure exports partition the data lines, "
+            "iteration yields 1..M, ValueError for the out-of-range shapes.",
+            'Oracle derived from kernpy\'s own full export (C03 decides that export); indifferent to whether an empty leading measure is numbered.', T_PATHS, 'DESIGN.md §3 C07'),
+    'C08': ("Every row sequence up to length 6/5/5/4 over data, barline, uniform clef/key/time rows, first-column-only clef/time rows, split, join for 1-2 kern spines (thorough: 3 spines, "
+            "kern next to text) x every measure range (15k quick / 755k thorough excerpts). Each excerpt is labelled by the model's state at its first row; in the claimed core "
+            "(and in the partial-signature-row class, repaired in this work) the excerpt must be accepted by the SpineModel acceptor, re-import without errors and carry the same "
+            "(note, clef/key/time in force) sequence as the full score; the other three classes are tracked as known findings symptom by symptom.",
+            'Trusted: text-level acceptor and context model in kv/props/c08.py (no kernpy call). Class predicate in DESIGN §3 C08.', T_PATHS + '; SpineModel used as acceptor', 'DESIGN.md §3 C08'),
     'C10': ("Pitch level, exhaustive: 7 clefs x 5 octave marks x 7 letters x 5 accidentals x octaves 0..8 through ClefFactory/pitch_to_gkern_string (G2 identity, one-step translation "
             "chained over the whole range, bottom line -> 'e', accidental carried over, octave marks irrelevant, bottom line = the staff's musical bottom line) and 7x3-5x8 one-note "
             "document grids for all accidental spellings incl. natural and display suffix. Document level: every enabled row sequence to depth 3-5 with single-column clef "
